@@ -31,12 +31,31 @@ Definition neutral (s s' : st) : Prop :=
 Definition fill_updates (o : order) (bv qv feev : Q) : vmap :=
   [(fst (o_pair o), bv)] ++ (if Qzero (qv + feev) then [] else [(snd (o_pair o), qv + feev)]).
 
+(* the required balances of an order: at most one entry for the base and one for the quote symbol, positive *)
+Definition req_form (p : pair) (req : vmap) : Prop :=
+  exists rb rq, req = rb ++ rq /\
+    (rb = [] \/ exists v, 0 < v /\ rb = [(fst p, v)]) /\ (rq = [] \/ exists v, 0 < v /\ rq = [(snd p, v)]).
+
+Lemma estimate_req_form c s o req : estimate_required c s o = Ok req -> req_form (o_pair o) req.
+Proof.
+  unfold estimate_required. destruct (get_pair_info c (o_pair o)) as [pi|]; cbn [rbind]; [|discriminate].
+  destruct (round_bu pi _ _) as [b q].
+  match goal with |- rbind ?r _ = _ -> _ => destruct r as [fee|]; cbn [rbind]; [|discriminate] end.
+  intros H; inversion H; subst; clear H. eexists. eexists. split; [reflexivity|]. split.
+  - destruct b as [bv|]; [|left; reflexivity]. destruct (Qltb bv 0) eqn:E; [|left; reflexivity].
+    right. apply Qltb_true in E. exists (- bv). split; [lra | reflexivity].
+  - match goal with |- (match ?x with Some _ => _ | None => _ end = _) \/ _ => destruct x as [qv|] end; [|left; reflexivity].
+    destruct (Qltb qv 0) eqn:E; [|left; reflexivity].
+    right. apply Qltb_true in E. exists (- qv). split; [lra | reflexivity].
+Qed.
+
 Inductive prim (c : cfg) : st -> st -> Prop :=
 | PNeutral s s' : neutral s s' -> prim c s s'
 | PMeta s o0 o' : get_order s (o_id o') = Some o0 -> same_money o0 o' -> prim c s (put_order s o')
 | PAccept s req s1 o' u :
     (if vnonempty req then upd_acct c s [] req [] else Done s tt) = Done s1 u ->
     o_id o' = length (s_orders s) -> o_fb o' = 0 -> o_fq o' = 0 -> o_fee o' = 0 -> 0 <= o_amount o' ->
+    fst (o_pair o') <> snd (o_pair o') -> req_form (o_pair o') req ->
     prim c s (set_orders (if vnonempty req then set_holds s1 (holds_set (s_holds s1) (o_id o') req) else s1)
                          (s_orders s ++ [o']))
 | PCreate s x a s' id : create_loan c s x a = Done s' id -> prim c s s'
